@@ -62,7 +62,7 @@ def mut_uses_of_field(prog, crate, name, ty_contains=None):
                 if has_field(s["a"], name, ty_contains):
                     out.append(dict(fn=f, b=b, i=i, kind="assign", place=s["a"], rv=s["rv"]))
                 rv = s["rv"]
-                if ("ref" in rv and rv.get("mut") and has_field(rv["ref"], name, ty_contains)):
+                if ("ref" in rv and rv.get("mut") and has_field(rv["ref"], name, ty_contains)) and not s.get("dead_capture"):
                     out.append(dict(fn=f, b=b, i=i, kind="refmut", place=rv["ref"], dest=mk_place(s["a"])))
                 if "rawptr" in rv and has_field(rv["rawptr"], name, ty_contains):
                     out.append(dict(fn=f, b=b, i=i, kind="rawptr", place=rv["rawptr"], dest=mk_place(s["a"])))
